@@ -502,6 +502,9 @@ func (c *Ctx) rulesR3names() {
 		if topFunc(f).Pkg == nil || relPkg(topFunc(f).Pkg.Pkg.Path()) != pm {
 			continue
 		}
+		if funcKey(topFunc(f)) == pm+":New" {
+			continue // constructor: nothing is cached yet
+		}
 		ws := 0
 		for _, w := range writesOfFieldIn(f, fN) {
 			if w.Kind == "assign" {
@@ -963,5 +966,442 @@ func (c *Ctx) rulesR3own() {
 	}
 	if n < 3 {
 		c.undecided(fmt.Sprintf("C14.own: only %d stores to Machine.tracers/handlers found", n))
+	}
+}
+
+func (c *Ctx) rulesR3parent() {
+	c.rule("C13.parent", "the constructor itself arranges for disposal on parent-context cancellation: New (or a goroutine it starts) waits on the Done channel of the context it was given and can reach Machine.Dispose from that case — the handler loop, the only other watcher, exists only once handlers are bound, so a machine without handlers would otherwise outlive its context with every waiter still open")
+	nw := c.fnOpt(pm + ":New")
+	if nw == nil {
+		return
+	}
+	found, reaches := false, false
+	var visit func(f *ssa.Function)
+	visit = func(f *ssa.Function) {
+		for _, a := range f.AnonFuncs {
+			visit(a)
+		}
+		for _, b := range f.Blocks {
+			for _, ins := range b.Instrs {
+				sel, ok := ins.(*ssa.Select)
+				if !ok {
+					continue
+				}
+				for k, st := range sel.States {
+					if st.Dir != types.RecvOnly {
+						continue
+					}
+					// the channel is <ctxParent>.Done(): directly, or captured in a local
+					isParent := false
+					valueTree(st.Chan, 8, func(x ssa.Value) {
+						if call, ok := x.(*ssa.Call); ok && calleeName(&call.Call) == "Done" {
+							valueTree(call.Call.Value, 6, func(y ssa.Value) {
+								if fl := fieldOf(y); fl != nil && fl.Name() == "ctxParent" {
+									isParent = true
+								}
+								if p, ok := y.(*ssa.Parameter); ok && isContextType(p.Type()) {
+									isParent = true
+								}
+							})
+						}
+						if fv, ok := x.(*ssa.FreeVar); ok {
+							// bound in the parent to a Done() of ctxParent
+							if par := fv.Parent().Parent(); par != nil {
+								for _, pb := range par.Blocks {
+									for _, pi := range pb.Instrs {
+										mc, ok := pi.(*ssa.MakeClosure)
+										if !ok || mc.Fn != ssa.Value(fv.Parent()) {
+											continue
+										}
+										for bi, bnd := range mc.Bindings {
+											if bi < len(fv.Parent().FreeVars) && fv.Parent().FreeVars[bi] == fv {
+												srcs := []ssa.Value{bnd}
+												if al, ok := bnd.(*ssa.Alloc); ok && al.Referrers() != nil {
+													for _, ar := range *al.Referrers() {
+														if st2, ok := ar.(*ssa.Store); ok && st2.Addr == ssa.Value(al) {
+															srcs = append(srcs, st2.Val)
+														}
+													}
+												}
+												for _, src := range srcs {
+													valueTree(src, 8, func(z ssa.Value) {
+														if call, ok := z.(*ssa.Call); ok && calleeName(&call.Call) == "Done" {
+															valueTree(call.Call.Value, 6, func(y ssa.Value) {
+																if fl := fieldOf(y); fl != nil && fl.Name() == "ctxParent" {
+																	isParent = true
+																}
+															})
+														}
+													})
+												}
+											}
+										}
+									}
+								}
+							}
+						}
+					})
+					if !isParent {
+						continue
+					}
+					found = true
+					// body of case k
+					for _, bb := range f.Blocks {
+						for _, in2 := range bb.Instrs {
+							bo, ok := in2.(*ssa.BinOp)
+							if !ok || bo.Op != token.EQL {
+								continue
+							}
+							ex, ok := bo.X.(*ssa.Extract)
+							if !ok || ex.Tuple != ssa.Value(sel) || ex.Index != 0 {
+								continue
+							}
+							if kk, ok := constInt(bo.Y); !ok || int(kk) != k {
+								continue
+							}
+							for _, r := range *bo.Referrers() {
+								if ifi, ok := r.(*ssa.If); ok {
+									body := ifi.Block().Succs[0]
+									for x := range blockReach(body) {
+										for _, in3 := range x.Instrs {
+											if ci, ok := in3.(ssa.CallInstruction); ok && c.callMatches(ci.Common(), pm+":Machine.Dispose") {
+												reaches = true
+											}
+										}
+									}
+									for _, in3 := range body.Instrs {
+										if ci, ok := in3.(ssa.CallInstruction); ok && c.callMatches(ci.Common(), pm+":Machine.Dispose") {
+											reaches = true
+										}
+									}
+								}
+							}
+						}
+					}
+				}
+			}
+		}
+	}
+	visit(nw)
+	c.check(found && reaches, "C13.parent", "New watches the parent context and disposes", nw.Pos(), fmt.Sprintf("select on the parent context's Done in New: %v; Dispose reachable from it: %v", found, reaches))
+}
+
+func (c *Ctx) rulesR3rpc2() {
+	c.rule("C09.muxid", "the id a Mux gives to the server it creates per connection is the plain result of the atomic Add on its connection counter (monotonic, never reused): the server's source tracer is named after it and is detached BY ID when the server is disposed, so a reused id lets the disposal of one client's server remove the tracer of another, still connected client (which then gets no more pushes)")
+	c.rule("C09.hellobase", "Server.RemoteHello memorizes as diff base the time vector in the form it is sent: no reassignment of the exported Time follows the store to lastPushData.mTime (for schema-less clients the filter allocates a new slice, so a base stored earlier is in the source's index space while every later diff is in the client's)")
+	acc := c.fnOpt(prpc + ":Mux.accept")
+	fCnt := c.field(prpc, "Mux", "countConns")
+	if acc != nil && fCnt != nil {
+		n := 0
+		var visit func(f *ssa.Function)
+		visit = func(f *ssa.Function) {
+			for _, a := range f.AnonFuncs {
+				visit(a)
+			}
+			for _, s := range c.sitesIn(f, prpc+":Mux.NewServer") {
+				n++
+				args := s.Common().Args
+				// the id argument: strconv.Itoa(int(x))
+				good, shown := false, ""
+				for _, a := range args {
+					call, ok := a.(*ssa.Call)
+					if !ok || calleeName(&call.Call) != "Itoa" {
+						continue
+					}
+					x := call.Call.Args[0]
+					for {
+						if cv, ok := x.(*ssa.Convert); ok {
+							x = cv.X
+							continue
+						}
+						break
+					}
+					shown = render(x)
+					if add, ok := x.(*ssa.Call); ok && calleeName(&add.Call) == "Add" && len(add.Call.Args) >= 1 && fieldOf(add.Call.Args[0]) == fCnt {
+						good = true
+					}
+				}
+				c.check(good, "C09.muxid", "Mux.accept numbers servers with the bare connection counter", s.Pos(), "the id is "+shown+": not the plain result of countConns.Add, ids can repeat among live servers")
+			}
+		}
+		visit(acc)
+		if n < 1 {
+			c.undecided("C09.muxid: Mux.accept does not call NewServer")
+		}
+	}
+	rh := c.fnOpt(prpc + ":Server.RemoteHello")
+	fLP := c.field(prpc, "tracerData", "mTime")
+	fET := c.field(pm, "Serialized", "Time")
+	if rh != nil && fLP != nil && fET != nil {
+		var mem []ssa.Instruction
+		for _, w := range writesOfFieldIn(rh, fLP) {
+			if w.Kind == "assign" {
+				mem = append(mem, w.Instr)
+			}
+		}
+		if len(mem) < 1 {
+			c.undecided("C09.hellobase: RemoteHello does not store lastPushData.mTime")
+		}
+		for i, ms := range mem {
+			bad := ""
+			for _, w := range writesOfFieldIn(rh, fET) {
+				if w.Kind == "assign" && canReach(ms, w.Instr) {
+					bad = c.pos(w.Instr.Pos())
+				}
+			}
+			c.check(bad == "", "C09.hellobase", fmt.Sprintf("RemoteHello: diff base%s is the vector as sent", nth(i)), ms.Pos(), "export.Time is reassigned at "+bad+" after it was memorized")
+		}
+	}
+}
+
+func (c *Ctx) rulesR3pub() {
+	c.rule("C12.pub", "Machine.bindHandlers finishes initialising the new binding before it releases handlersMx: no store to a field of the *handler follows the Unlock (the binding is reachable through Machine.handlers from then on, and processHandlers reads handler.opts with only the binding's own mutex)")
+	c.rule("C12.toctou", "the position deleted from Machine.tracers / Machine.handlers is computed inside the same write-locked critical section as the delete: a position found under a read lock (or before re-locking) is stale when two detaches overlap and removes somebody else's tracer")
+	bh := c.fnOpt(pm + ":Machine.bindHandlers")
+	if bh != nil {
+		var hp ssa.Value
+		for _, p := range bh.Params {
+			if nt := namedOf(p.Type()); nt != nil && nt.Obj().Name() == "handler" {
+				hp = p
+			}
+		}
+		var unlocks []ssa.Instruction
+		for _, s := range c.sitesIn(bh, "method:Unlock") {
+			if id, _ := lockOp(s.Common()); id == "pkg/machine.Machine.handlersMx" {
+				if _, isDefer := s.(*ssa.Defer); !isDefer {
+					unlocks = append(unlocks, s)
+				}
+			}
+		}
+		n := 0
+		bad := ""
+		pos := bh.Pos()
+		for _, b := range bh.Blocks {
+			for _, ins := range b.Instrs {
+				st, ok := ins.(*ssa.Store)
+				if !ok {
+					continue
+				}
+				fa, ok := st.Addr.(*ssa.FieldAddr)
+				if !ok || fa.X != hp {
+					continue
+				}
+				n++
+				for _, u := range unlocks {
+					if canReach(u, ins) {
+						bad, pos = "handler."+fieldOf(fa).Name()+" is written after handlersMx.Unlock", ins.Pos()
+					}
+				}
+			}
+		}
+		if hp == nil || n < 1 {
+			c.undecided("C12.pub: bindHandlers no longer initialises fields of its *handler parameter")
+		} else {
+			c.check(bad == "", "C12.pub", "bindHandlers initialises the binding before unlocking", pos, bad)
+		}
+	}
+	la := c.lockAnalysis()
+	n := 0
+	for _, spec := range []struct{ fld, lock string }{{"tracers", "pkg/machine.Machine.tracersMx"}, {"handlers", "pkg/machine.Machine.handlersMx"}} {
+		fld := c.field(pm, "Machine", spec.fld)
+		if fld == nil {
+			continue
+		}
+		for _, f := range c.Funcs {
+			if topFunc(f).Pkg == nil || relPkg(topFunc(f).Pkg.Pkg.Path()) != pm {
+				continue
+			}
+			for _, d := range inPlaceDeletes(f) {
+				if calleeName(&d.Call) != "Delete" || len(d.Call.Args) != 3 || loadOfField(d.Call.Args[0]) != fld {
+					continue
+				}
+				n++
+				// where the position comes from
+				pos := d.Call.Args[1]
+				var def ssa.Instruction
+				valueTree(pos, 4, func(x ssa.Value) {
+					if def != nil {
+						return
+					}
+					switch y := x.(type) {
+					case *ssa.Call:
+						def = y
+					case *ssa.Phi:
+						if y.Comment == "rangeindex" && len(y.Block().Instrs) > 0 {
+							def = y.Block().Instrs[0]
+						}
+					}
+				})
+				if def == nil {
+					c.undecided("C12.toctou: cannot find where the position deleted from Machine." + spec.fld + " in " + funcKey(f) + " is computed")
+					continue
+				}
+				good := len(la.heldAt(def)) > 0 && def.Block().Parent() == f
+				for _, hr := range la.heldAt(def) {
+					if hr.held[spec.lock] != 'W' {
+						good = false
+					}
+				}
+				// and the lock is not released in between: no Unlock of that lock on a path def -> delete
+				for _, s := range c.sitesIn(f, "method:Unlock") {
+					if id, _ := lockOp(s.Common()); id == spec.lock {
+						if _, isDefer := s.(*ssa.Defer); !isDefer && canReach(def, s) && canReach(s, d) {
+							good = false
+						}
+					}
+				}
+				for _, s := range c.sitesIn(f, "method:RUnlock") {
+					if id, _ := lockOp(s.Common()); id == spec.lock && canReach(def, s) && canReach(s, d) {
+						good = false
+					}
+				}
+				c.check(good, "C12.toctou", fmt.Sprintf("%s: position deleted from Machine.%s is computed under the same write lock", funcKey(f), spec.fld), d.Pos(), "the position ("+render(pos)+") is computed at "+c.pos(def.Pos())+" without "+shortLock(spec.lock)+" held in W mode up to the delete")
+			}
+		}
+	}
+	if n < 1 {
+		c.undecided("C12.toctou: no in-place delete from Machine.tracers / handlers found")
+	}
+}
+
+func (c *Ctx) rulesR3misc() {
+	c.rule("C13.gracectx", "the grace-period timer of handlerLoop is not derived from the parent context: that context is already canceled when the grace period starts, a timer derived from it fires at once and cuts the state-based disposal (Disposing state, RegisterDisposal handlers) short")
+	hl := c.fnOpt(pm + ":Machine.handlerLoop")
+	fCP := c.field(pm, "Machine", "ctxParent")
+	if hl != nil && fCP != nil {
+		n := 0
+		for _, b := range hl.Blocks {
+			for _, ins := range b.Instrs {
+				call, ok := ins.(*ssa.Call)
+				if !ok {
+					continue
+				}
+				fo := calleeObj(&call.Call)
+				if fo == nil || fo.Pkg() == nil || fo.Pkg().Path() != "context" || (fo.Name() != "WithTimeout" && fo.Name() != "WithDeadline" && fo.Name() != "WithCancel") {
+					continue
+				}
+				n++
+				fromParent := flowsFrom(call.Call.Args[0], func(x ssa.Value) bool { return loadOfField(x) == fCP })
+				c.check(!fromParent, "C13.gracectx", fmt.Sprintf("handlerLoop: context#%d is not a child of the parent context", n), call.Pos(), "derived from Machine.ctxParent, which is done by the time this code runs")
+			}
+		}
+		if n < 1 {
+			c.undecided("C13.gracectx: handlerLoop creates no grace context")
+		}
+	}
+	c.rule("C06.close", "processSubscriptions (Machine and NetworkMachine) closes every channel its collectors returned, unconditionally: the collectors have already removed those bindings from the indexes Subscriptions.dispose walks, so a skipped close (e.g. 'disposal will do it') leaves the waiter blocked forever")
+	nc := 0
+	for _, k := range []string{pm + ":Machine.processSubscriptions", prpc + ":NetworkMachine.processSubscriptions"} {
+		f := c.fnOpt(k)
+		if f == nil {
+			continue
+		}
+		for _, b := range f.Blocks {
+			for _, ins := range b.Instrs {
+				call, ok := ins.(*ssa.Call)
+				if !ok {
+					continue
+				}
+				isClose := calleeName(&call.Call) == "closeSafe"
+				if bi, ok := call.Call.Value.(*ssa.Builtin); ok && bi.Name() == "close" {
+					isClose = true
+				}
+				if !isClose {
+					continue
+				}
+				nc++
+				bad := ""
+				for _, g := range guardsOf(b) {
+					cond, _ := stripNot(g.Cond)
+					if bo, ok := cond.(*ssa.BinOp); ok && (bo.Op == token.LSS || bo.Op == token.GTR) {
+						continue // range bound
+					}
+					bad = render(g.Cond)
+				}
+				// an early return inside the closing loop
+				if h := loopHeaderOf(b); h != nil {
+					for _, x := range f.Blocks {
+						if h.Dominates(x) && blockReach(x)[h] && len(x.Instrs) > 0 {
+							if ifi, ok := x.Instrs[len(x.Instrs)-1].(*ssa.If); ok && x != h {
+								for _, sx := range x.Succs {
+									if !blockReach(sx)[h] && sx != h && !h.Dominates(sx) {
+										bad = "loop exit on " + render(ifi.Cond)
+									} else if len(sx.Instrs) > 0 {
+										if _, isRet := sx.Instrs[len(sx.Instrs)-1].(*ssa.Return); isRet && h.Dominates(sx) && !blockReach(sx)[h] {
+											bad = "early return on " + render(ifi.Cond)
+										}
+									}
+								}
+							}
+						}
+					}
+				}
+				c.check(bad == "", "C06.close", fmt.Sprintf("%s closes collected channels unconditionally#%d", k, nc), ins.Pos(), "closing depends on "+bad)
+			}
+		}
+	}
+	if nc < 2 {
+		c.undecided(fmt.Sprintf("C06.close: only %d close sites in processSubscriptions", nc))
+	}
+	c.rule("C14.net", "NetworkMachine.updateClock reports every applied clock update to the tracers (TransitionInit, TransitionStart, TransitionEnd unconditionally): ticks can move without the active set changing (Multi re-activation, off/on merged into one diff), and a history bound to the mirror must record them")
+	uc := c.fnOpt(prpc + ":NetworkMachine.updateClock")
+	if uc != nil {
+		nt := 0
+		for _, m := range []string{"TransitionInit", "TransitionStart", "TransitionEnd"} {
+			for i, s := range c.sitesIn(uc, "iface:Tracer."+m) {
+				nt++
+				bad := ""
+				for _, g := range guardsOf(s.Block()) {
+					cond, _ := stripNot(g.Cond)
+					if bo, ok := cond.(*ssa.BinOp); ok && (bo.Op == token.LSS || bo.Op == token.GTR) {
+						isIdx := false
+						valueTree(bo, 3, func(x ssa.Value) {
+							if ph, ok := x.(*ssa.Phi); ok && ph.Comment == "rangeindex" {
+								isIdx = true
+							}
+						})
+						if isIdx {
+							continue
+						}
+					}
+					bad = render(g.Cond)
+				}
+				c.check(bad == "", "C14.net", fmt.Sprintf("updateClock calls %s%s unconditionally", m, nth(i)), s.Pos(), "only under "+bad)
+			}
+		}
+		if nt < 3 {
+			c.undecided(fmt.Sprintf("C14.net: only %d tracer calls in updateClock", nt))
+		}
+	}
+	c.rule("C17.full", "every history backend decides its Changed allow/block list from the FULL machine-time diff of the transition (TimeAfter.DiffSince(TimeBefore)), not from the tracked-only vectors: a block-listed state need not be tracked, and then its ticks are invisible in the tracked diff and transitions that must be filtered out get records")
+	fTA := c.field(pm, "Transition", "TimeAfter")
+	fTB := c.field(pm, "Transition", "TimeBefore")
+	nd := 0
+	for _, f := range c.Funcs {
+		if topFunc(f).Pkg == nil || f.Name() != "TransitionEnd" || f.Parent() != nil {
+			continue
+		}
+		rel := relPkg(topFunc(f).Pkg.Pkg.Path())
+		if len(rel) < len("pkg/history") || rel[:len("pkg/history")] != "pkg/history" {
+			continue
+		}
+		for i, s := range c.sitesIn(f, "method:NonZeroStates") {
+			nd++
+			// receiver chain: ToIndex(DiffSince(a, b), names)
+			var ds *ssa.Call
+			valueTree(s.Common().Args[0], 6, func(x ssa.Value) {
+				if call, ok := x.(*ssa.Call); ok && calleeName(&call.Call) == "DiffSince" && ds == nil {
+					ds = call
+				}
+			})
+			good := false
+			if ds != nil && len(ds.Call.Args) == 2 {
+				good = loadOfField(ds.Call.Args[0]) == fTA && loadOfField(ds.Call.Args[1]) == fTB
+			}
+			c.check(good, "C17.full", fmt.Sprintf("%s: changed-states list%s comes from TimeAfter.DiffSince(TimeBefore)", funcKey(f), nth(i)), s.Pos(), "the list of changed states is not computed from the transition's full time vectors")
+		}
+	}
+	if nd < 1 {
+		c.undecided("C17.full: no NonZeroStates call in the history tracers")
 	}
 }
